@@ -259,17 +259,17 @@ def runTree (env : Env) (lastEq : Bool) : DTree → Except PyErr Res × List Eff
 inductive PArg
   | timings (e : WExp)                -- `<IntegerWrapper>.timings` passed positionally
   | lit (ds : List Int)               -- literal durations
-deriving Repr
+deriving Repr, DecidableEq
 
 structure Packet where
   args   : List PArg
   kwargs : List (String × Bool × WExp)      -- key, passed as an IntegerWrapper?, expression
-deriving Repr
+deriving Repr, DecidableEq
 
 inductive FrameRef
   | packet (k : Nat)
   | lit (ds : List Int)
-deriving Repr
+deriving Repr, DecidableEq
 
 structure EncTrace where
   packets : List Packet
